@@ -303,7 +303,46 @@ class Normalizer:
             eff = res[1]['$eff']
         else:
             ret, eff = res[1], res[2]
-        return ('fn', self.finalize(eff), self.finalize(ret))
+        return self._renumber_loops(('fn', self.finalize(eff), self.finalize(ret)))
+
+    @staticmethod
+    def _renumber_loops(term):
+        """Loop identities are handed out in source order while a body is read; loops that the rewrites dissolved leave gaps.  The finished
+        term names its loops 1, 2, ... in the order they occur in it, so two bodies that differ only in dissolved loops compare equal."""
+        order = {}
+        seen = set()
+
+        def scan(t):
+            if isinstance(t, tuple) and t:
+                if id(t) in seen:
+                    return
+                seen.add(id(t))
+                if t[0] in ('loop', 'rawloop') and len(t) >= 2 and isinstance(t[1], int) and t[1] not in order:
+                    order[t[1]] = len(order) + 1
+                for y in t:
+                    scan(y)
+        scan(term)
+        if all(k == v for k, v in order.items()):
+            return term
+        memo = {}
+
+        def ren(t):
+            if not isinstance(t, tuple) or not t:
+                return t
+            k_ = id(t)
+            if k_ in memo:
+                return memo[k_][1]
+            if t[0] in ('loop', 'rawloop') and len(t) >= 2 and isinstance(t[1], int) and t[1] in order:
+                r = (t[0], order[t[1]]) + tuple(ren(y) for y in t[2:])
+            elif t[0] == 'iv' and len(t) == 2 and t[1] in order:
+                r = ('iv', order[t[1]])
+            elif t[0] == 'lv' and len(t) == 3 and t[1] in order:
+                r = ('lv', order[t[1]], t[2])
+            else:
+                r = tuple(ren(y) for y in t)
+            memo[k_] = (t, r)
+            return r
+        return ren(term)
 
     def run_env(self):
         """Normal form of the final environment of a body that falls off its end (methods that only store attributes):
@@ -876,6 +915,15 @@ class Normalizer:
                     for v2 in carried:
                         bodies[v2] = self._resubst(bodies[v2], lvk, cur)
                     break
+            # N53: `for x in [f(j) for j in range(n)]: B(x)`  is  `for j in range(n): B(f(j))`  (the list is only read, element by element in order)
+            if isinstance(st, ast.For) and isinstance(header, tuple) and header[0] == 'for' and isinstance(header[1], tuple) and header[1] \
+                    and header[1][0] == 'lam' and len(header[1]) == 4 and not any(_has(bodies[v], ('lam', 'lamseq')) for v in carried):
+                _, l_, T_, f_ = header[1]
+                elem = self._resubst(f_, ('bv', l_), ('iv', d))
+                header = ('for', ('call', 'range', (T_,), ()))
+                self.loop_headers[d] = header
+                for v2 in carried:
+                    bodies[v2] = self._resubst(bodies[v2], ('iv', d), elem)
             # N45: a carried value that every round hands on unchanged WHEN it starts the round at its initial value (a buffer that is set and
             # reset around a call) has its initial value in every round (induction over the rounds): it is that value
             for k, v in enumerate(carried):
@@ -1095,10 +1143,28 @@ class Normalizer:
                 self.lam_level -= 1
             if not conds and seq[0] == 'call' and seq[1] == 'range' and len(seq[2]) == 1 and not seq[3]:
                 return ('lam', lvl, seq[2][0], body)
+            if not conds:
+                fused = self._map_over(seq, lvl, body)
+                if fused is not None:
+                    return fused
             return ('lamseq', lvl, seq, body, conds)
         if isinstance(e, (ast.ListComp, ast.GeneratorExp, ast.Dict, ast.Set, ast.DictComp, ast.SetComp)):
             raise Unsupported('comprehension/dict expression at line %d' % e.lineno)
         raise Unsupported('expression %s' % type(e).__name__)
+
+    def _map_over(self, seq, lvl, body):
+        """N50: [g(x) for x in L] with L the comprehension list [f(j) for j in range(n)] is [g(f(j)) for j in range(n)]; over a conditional
+        between two such lists, the conditional between the two maps.  None when L is not of that kind."""
+        if isinstance(seq, tuple) and seq and seq[0] == 'lam' and len(seq) == 4 and (seq[1] == lvl or not _has(seq[3], ('lam', 'lamseq'))):
+            f = seq[3] if seq[1] == lvl else self._resubst(seq[3], ('bv', seq[1]), ('bv', lvl))
+            if _has(body, ('lam', 'lamseq')) and _has(f, ('bv',)):
+                return None                                  # an inner comprehension of the body could capture the variable of f
+            return ('lam', lvl, seq[2], self._resubst(body, ('bv', lvl), f))
+        if isinstance(seq, tuple) and seq and seq[0] == 'ite' and len(seq) == 4:
+            a_, b_ = self._map_over(seq[2], lvl, body), self._map_over(seq[3], lvl, body)
+            if a_ is not None and b_ is not None:
+                return self.ite(seq[1], a_, b_)
+        return None
 
     def index_items(self, sl, env):
         items = sl.elts if isinstance(sl, ast.Tuple) else [sl]
@@ -1133,10 +1199,23 @@ class Normalizer:
             return a
         if a == ('k', True) and b == ('k', False) and c[0] in ('cmp', 'and', 'or', 'not'):
             return c
+        # N51: the truth value of a comprehension list of length n is `n >= 1`
+        if c[0] == 'lam' and len(c) == 4:
+            return self.ite(canon_cmp('<', c[2], num(1)), b, a)
+        # N46 for an explicit empty list: `[] if n < 1 else [g(j) for j in range(n)]` is the comprehension list (it is empty when the test holds)
+        for x_, y_, holds in ((a, b, True), (b, a, False)):
+            if x_ == ('list', ()) and isinstance(y_, tuple) and y_ and y_[0] == 'lam' and len(y_) == 4 and c[0] == 'cmp' and len(c) == 4 and holds \
+                    and c in (canon_cmp('<', y_[2], num(1)), canon_cmp('<=', y_[2], num(0)), canon_cmp('>', num(1), y_[2]), canon_cmp('>=', num(0), y_[2])):
+                return y_
         # N46: two lists of the same length n selected by `n < 1` (or `n <= 0`): both are empty when the test holds, so the other arm is the value
         if isinstance(a, tuple) and isinstance(b, tuple) and a and b and a[0] == 'lam' and b[0] == 'lam' and len(a) == 4 and len(b) == 4 and a[2] == b[2] \
                 and c[0] == 'cmp' and len(c) == 4 and (c in (canon_cmp('<', a[2], num(1)), canon_cmp('<=', a[2], num(0)), canon_cmp('>', num(1), a[2]), canon_cmp('>=', num(0), a[2]))):
             return ('lam', b[1], b[2], b[3])
+        # N52: a conditional between two comprehension lists of one length is the comprehension list of the conditionals
+        if isinstance(a, tuple) and isinstance(b, tuple) and a and b and a[0] == 'lam' and b[0] == 'lam' and len(a) == 4 and len(b) == 4 and a[2] == b[2] \
+                and not _has(c, ('bv',)) and (a[1] == b[1] or not _has(b[3], ('lam', 'lamseq'))):
+            gb = b[3] if a[1] == b[1] else self._resubst(b[3], ('bv', b[1]), ('bv', a[1]))
+            return ('lam', a[1], a[2], self.ite(c, a[3], gb))
         # N43: a conditional between two tuples of the same length is the tuple of the conditionals (`if c: return (a, b)` / `return (a', b')`)
         if isinstance(a, tuple) and isinstance(b, tuple) and a and b and a[0] == 'tuple' and b[0] == 'tuple' and len(a) == 2 and len(b) == 2 \
                 and len(a[1]) == len(b[1]) and 0 < len(a[1]) <= 6:
@@ -1552,11 +1631,16 @@ class Normalizer:
         init, body = vars_[k]
         if not (isinstance(body, tuple) and body and body[0] == 'store' and len(body) == 4 and body[1] == ('lv', d, k) and len(body[2]) == 1):
             return None
-        if not self._list_root(init):
-            return None
         c = next((c_ for c_ in range(0, 4) if body[2][0] == self.int_add(('iv', d), c_)), None)
         if c is None:
             return None
+        if not self._list_root(init):
+            # N49: the same for a rank-1 float array of exactly T elements filled element by element (`a = np.empty(T)` / zeros / ones, then
+            # `a[i] = g` for i in range(T)): every element is overwritten once, what the buffer held before is never read.  The stored value
+            # must be a scalar (an array element holds a float: no aliasing, no broadcasting)
+            if not (c == 0 and isinstance(init, tuple) and len(init) == 4 and init[0] == 'call' and init[1] in ('numpy.empty', 'numpy.zeros', 'numpy.ones')
+                    and init[2] == (T,) and not init[3] and self.shape(body[3]) == ()):
+                return None
         j = self.int_add(e, -c)
         ivs = set()
 
